@@ -174,6 +174,57 @@ fn main() {
                     code = step["code"].as_i64().unwrap_or(0) as i32;
                     break;
                 }
+                // run another program (inheriting this process's environment), wait for it, record its exit status
+                // and the tail of its stderr in a marker file
+                "spawn" => {
+                    let argv: Vec<String> = step["argv"].as_array().map(|a| a.iter().filter_map(|x| x.as_str().map(String::from)).collect()).unwrap_or_default();
+                    if !argv.is_empty() {
+                        let mut cmd = std::process::Command::new(&argv[0]);
+                        cmd.args(&argv[1..]).stdin(std::process::Stdio::null()).stdout(std::process::Stdio::piped()).stderr(std::process::Stdio::piped());
+                        if let Some(d) = step["cwd"].as_str() {
+                            cmd.current_dir(d);
+                        }
+                        let res = cmd.output();
+                        let rec = match res {
+                            Ok(o) => json!({"rc": o.status.code().unwrap_or(-1), "stderr": String::from_utf8_lossy(&o.stderr).chars().rev().take(600).collect::<String>().chars().rev().collect::<String>(),
+                                            "t0": now_ns()}),
+                            Err(e) => json!({"rc": -2, "stderr": format!("spawn failed: {}", e)}),
+                        };
+                        let _ = std::fs::write(resolve(step["out"].as_str().unwrap_or("spawned")), rec.to_string());
+                    }
+                }
+                // die of a signal (after recording the end event with the negated signal number as code)
+                "signal" => {
+                    let sig = step["sig"].as_i64().unwrap_or(9) as i32;
+                    let _ = std::fs::write(markers.join(format!("ended-{}", k)), b"");
+                    ev.emit(json!({"k": "end", "ts": now_ns(), "key": k, "id": id, "code": -sig}));
+                    unsafe {
+                        libc::raise(sig);
+                    }
+                    std::thread::sleep(std::time::Duration::from_secs(5));
+                    std::process::exit(128 + sig);
+                }
+                // print texts[n] on the n-th execution of this very script (counter file per script key), so that
+                // repeated executions of one (command, target) in a single run differ in what they write
+                "out_by_count" => {
+                    let cf = dir.join("markers").join(format!("count-{}-{}", k, step["counter"].as_str().unwrap_or("c")));
+                    let n: usize = std::fs::read_to_string(&cf).ok().and_then(|s| s.trim().parse().ok()).unwrap_or(0);
+                    let _ = std::fs::write(&cf, format!("{}", n + 1));
+                    if let Some(texts) = step["texts"].as_array() {
+                        if !texts.is_empty() {
+                            let t = texts[n.min(texts.len() - 1)].as_str().unwrap_or("");
+                            if step["stream"].as_str() == Some("stderr") {
+                                let mut e = std::io::stderr();
+                                let _ = e.write_all(t.as_bytes());
+                                let _ = e.flush();
+                            } else {
+                                let mut o = std::io::stdout();
+                                let _ = o.write_all(t.as_bytes());
+                                let _ = o.flush();
+                            }
+                        }
+                    }
+                }
                 _ => {}
             }
         }
